@@ -121,7 +121,7 @@ def analyse_sweep(wd, plan, harness_out):
            'harness_problems': [l for l in harness_out.split('\n') if l.startswith('PROBLEM')]}
     if not (len(ops) == len(impl) == len(model) == len(spec)):
         res['problems'].append((None, 'stream-length', 'ops=%d impl=%d model=%d spec=%d' % (len(ops), len(impl), len(model), len(spec)), []))
-    cur = None; trace = []; bad = False; fired = False
+    cur = None; trace = []; bad = False; badspec = False; fired = False
     def close():
         nonlocal cur, trace, fired
         if cur is not None:
@@ -134,22 +134,19 @@ def analyse_sweep(wd, plan, harness_out):
         if o.startswith('scn '):
             close()
             f = o.split()
-            cur = (f[2], f[3], int(f[4])); trace = []; bad = False; fired = False
+            cur = (f[2], f[3], int(f[4])); trace = []; bad = False; badspec = False; fired = False
             res['scenarios'] += 1
             res['hist'][f[2]] = res['hist'].get(f[2], 0) + 1
             continue
         trace.append(o + ' => ' + impl[i])
         if o.split()[0] in ('inject', 'busy', 'injectbusy', 'injectcb', 'shret') or (o.startswith('accept 1')):
             fired = True
-        if bad: continue
-        kind = None
-        if spec[i].startswith('IMPL-SPEC-FAIL'):
-            kind = 'impl-violates-spec'
-        elif impl[i] != model[i]:
-            kind = 'impl-model-differ'
-        if kind:
+        if spec[i].startswith('IMPL-SPEC-FAIL') and not badspec:
+            badspec = True
+            res['problems'].append((cur, 'impl-violates-spec', 'op=%s | impl=%s | model=%s | spec=%s' % (o, impl[i], model[i], spec[i]), list(trace)))
+        elif impl[i] != model[i] and not bad:
             bad = True
-            res['problems'].append((cur, kind, 'op=%s | impl=%s | model=%s | spec=%s' % (o, impl[i], model[i], spec[i]), list(trace)))
+            res['problems'].append((cur, 'impl-model-differ', 'op=%s | impl=%s | model=%s | spec=%s' % (o, impl[i], model[i], spec[i]), list(trace)))
     close()
     return res
 
